@@ -304,6 +304,7 @@ def c02_rf9(run):
 def c02_rf26(run):
     rf_fold.rf26(run)
     run.min_instances('RF26', 10)
+    rf_fold.rf34(run)
 
 
 PLAN = {
